@@ -8,6 +8,7 @@
 //! Request lines (answered by the Lean model `model_C18`, see Driver/C18.lean):
 //!   `sched map|iter <v> <n>` / `sched apply <v> <u> <n>`  → observed active lanes per closure call
 //!   `fold <kind> <v> <op> <init> <xs>`                    → lanes of the final accumulator of Iter::fold etc.
+//!   `emu <direct|avx2x8|avx2x16> <mask bits>`             → lanes a masked load/store with that mask touches
 //!   `mask <v> <n>` / `bmask <v> <n>`                       → `first_n_mask(n)` lanes
 //!   `writer <len> <ops…>`                                  → SliceWriter state or `panic`
 //!   `row|bin|un|lay <ty> <op> …`                           → integer lane results
@@ -1959,6 +1960,136 @@ fn fold_cases<T: FoldTy>(out: &mut Out, rng: &mut Rng, model: bool) {
     }
 }
 
+
+// ---------------------------------------------------------------------------------------------
+// Masked load/store with ARBITRARY masks (hardware masked ops, AVX2's movemask-driven scalar
+// fallback for 8/16-bit lanes, the generic ISA's loops) and the real `dispatch`
+// ---------------------------------------------------------------------------------------------
+
+struct EmuOp<'a, T: MemTy> {
+    bits: &'a [bool],
+    src: *const T,
+    dst: *mut T,
+    loaded: &'a mut Vec<T>,
+}
+impl<T: MemTy> SimdOp for EmuOp<'_, T> {
+    type Output = ();
+    #[inline(always)]
+    fn eval<I: Isa>(self, isa: I) {
+        let ops = T::num_ops(isa);
+        let v = ops.len();
+        // lane mask from a comparison, as client code obtains arbitrary masks
+        let sel: Vec<T> = (0..v).map(|i| if self.bits.get(i).copied().unwrap_or(false) { T::pat(0) } else { T::default() }).collect();
+        let mask = ops.gt(ops.load(&sel), ops.zero());
+        let x = unsafe { ops.load_ptr_mask(self.src, mask) };
+        self.loaded.extend(x.to_array().as_ref().iter().copied());
+        let y = ops.add(x, ops.one());
+        unsafe { ops.store_ptr_mask(y, self.dst, mask) };
+    }
+}
+
+fn emu_cases<T: MemTy>(out: &mut Out, rng: &mut Rng, gsrc: &mut Guard, gdst: &mut Guard, per_len: usize) {
+    let sz = std::mem::size_of::<T>();
+    for w in 0..3 {
+        if !isa_available(w) {
+            continue;
+        }
+        let v = lanes_of::<T>(w);
+        let kind = match (w, sz) {
+            (1, 1) => "avx2x8",
+            (1, 2) => "avx2x16",
+            _ => "direct",
+        };
+        for len in 0..=v {
+            for rep in 0..per_len {
+                let at_end = rep % 2 == 0;
+                // arbitrary mask inside the slice, off beyond it (those lanes lie in the guard page
+                // when the slice is flush to the end of the region)
+                let bits: Vec<bool> = (0..v).map(|i| i < len && (rep == 0 || rng.chance(1, 2))).collect();
+                gsrc.refill();
+                gdst.refill();
+                let so = gsrc.window(len * sz, at_end);
+                let dofs = gdst.window(len * sz, at_end);
+                let src: &mut [T] = unsafe { std::slice::from_raw_parts_mut(gsrc.ptr(so) as *mut T, len) };
+                for (i, s) in src.iter_mut().enumerate() {
+                    *s = T::pat(i);
+                }
+                let bs: String = bits.iter().map(|&b| if b { '1' } else { '0' }).collect();
+                set_cur(&format!("emu {kind} {bs} ty={} isa={} len={len} place={}", T::NAME, ISA_NAMES[w], if at_end { "end" } else { "start" }));
+                let mut loaded: Vec<T> = vec![];
+                let r = hcommon::catch(|| {
+                    run_isa(w, EmuOp::<T> { bits: &bits, src: gsrc.ptr(so) as *const T, dst: gdst.ptr(dofs) as *mut T, loaded: &mut loaded });
+                });
+                let mut fail: Option<String> = None;
+                let ans = match r {
+                    Err(m) => format!("panic {m}"),
+                    Ok(()) => {
+                        let dbytes = unsafe { std::slice::from_raw_parts(gdst.ptr(dofs), len * sz) };
+                        let d: &[T] = unsafe { std::slice::from_raw_parts(gdst.ptr(dofs) as *const T, len) };
+                        let got_load: Vec<bool> = (0..v).map(|i| !loaded[i].is_zero()).collect();
+                        let got_store: Vec<bool> = (0..v).map(|i| i < len && dbytes[i * sz..(i + 1) * sz].iter().any(|&b| b != CANARY)).collect();
+                        if got_load != got_store {
+                            fail = Some(format!("lanes loaded {:?} differ from lanes stored {:?}", got_load, got_store));
+                        }
+                        if got_load != bits {
+                            fail = Some("accessed lanes differ from the mask".into());
+                        }
+                        for i in 0..len {
+                            if bits[i] && (loaded[i] != T::pat(i) || d[i] != T::pat(i).plus1()) {
+                                fail = Some(format!("lane {i}: loaded {:?} stored {:?}, expected {:?} / {:?}", loaded[i], d[i], T::pat(i), T::pat(i).plus1()));
+                            }
+                        }
+                        if !gsrc.canaries_intact(so, len * sz) || !gdst.canaries_intact(dofs, len * sz) {
+                            fail = Some("bytes outside the slice were modified".into());
+                        }
+                        got_load.iter().map(|&b| if b { '1' } else { '0' }).collect::<String>()
+                    }
+                };
+                out.bucket(&format!("emu_{}_{}", kind, ISA_NAMES[w]));
+                out.case(&format!("emu {kind} {bs} ty={} isa={} len={len}", T::NAME, ISA_NAMES[w]), &ans, fail.as_deref(), len > 0 && len < v);
+            }
+        }
+    }
+}
+
+/// The real `rten_simd` dispatch (dispatch.rs:30): which ISA does it pick, and is it supported?
+struct WhichIsa;
+impl SimdOp for WhichIsa {
+    type Output = (&'static str, usize);
+    fn eval<I: Isa>(self, isa: I) -> Self::Output {
+        (std::any::type_name::<I>(), isa.f32().len())
+    }
+}
+
+fn dispatch_case(out: &mut Out) {
+    let (name, lanes) = WhichIsa.dispatch();
+    let has512 = is_x86_feature_detected!("avx512f")
+        && is_x86_feature_detected!("avx512vl")
+        && is_x86_feature_detected!("avx512bw")
+        && is_x86_feature_detected!("avx512dq");
+    let has2 = is_x86_feature_detected!("avx2") && is_x86_feature_detected!("fma") && is_x86_feature_detected!("f16c");
+    let (chosen, want_lanes) = if name.contains("Avx512") {
+        ("avx512", 16)
+    } else if name.contains("Avx2") {
+        ("avx2", 8)
+    } else {
+        ("generic", 4)
+    };
+    let best = if has512 { "avx512" } else if has2 { "avx2" } else { "generic" };
+    let mut fail = None;
+    if (chosen == "avx512" && !has512) || (chosen == "avx2" && !has2) {
+        fail = Some(format!("dispatch chose {name} but the CPU does not report its features"));
+    } else if chosen != best {
+        fail = Some(format!("dispatch chose {chosen} although {best} is supported (not the widest ISA)"));
+    } else if lanes != want_lanes {
+        fail = Some(format!("{name} reports {lanes} f32 lanes, expected {want_lanes}"));
+    }
+    // The forced-ISA trampolines of this harness must agree with what dispatch enables.
+    out.note(&format!("rten_simd::dispatch picked {name} ({lanes} f32 lanes); cpu: avx512={has512} avx2+fma+f16c={has2}"));
+    out.bucket("dispatch");
+    out.case(&format!("# dispatch cpu_avx512={has512} cpu_avx2={has2}"), chosen, fail.as_deref(), true);
+}
+
 /// rten-vecmath reductions under every ISA, every length 0..=4v+3, sign regimes for which the
 /// zero padding of the tail vector is not neutral.
 fn vecmath_reductions(out: &mut Out, rng: &mut Rng) {
@@ -2083,6 +2214,14 @@ fn run(args: &Args) {
     mask_cases::<i8>(&mut out);
     mask_cases::<u8>(&mut out);
     writer_cases(&mut out, &mut rng, &mut gdst, if t { 20000 } else { 2000 });
+    let pl = if t { 24 } else { 6 };
+    emu_cases::<f32>(&mut out, &mut rng, &mut gsrc, &mut gdst, pl);
+    emu_cases::<i32>(&mut out, &mut rng, &mut gsrc, &mut gdst, pl);
+    emu_cases::<i16>(&mut out, &mut rng, &mut gsrc, &mut gdst, pl);
+    emu_cases::<u16>(&mut out, &mut rng, &mut gsrc, &mut gdst, pl);
+    emu_cases::<i8>(&mut out, &mut rng, &mut gsrc, &mut gdst, pl);
+    emu_cases::<u8>(&mut out, &mut rng, &mut gsrc, &mut gdst, pl);
+    dispatch_case(&mut out);
     fold_cases::<i32>(&mut out, &mut rng, true);
     fold_cases::<f32>(&mut out, &mut rng, false);
     vecmath_reductions(&mut out, &mut rng);
@@ -2095,7 +2234,7 @@ fn run(args: &Args) {
         "exhaustive i8/u8 operand pairs for 15 binary lane ops; complete i8/i16 domains for unary ops and i16->u8 narrowing; \
          boundary-biased 64-lane samples for i16/u16/i32; one-vector layout ops per ISA; every loop (simd_map in-place/src-dst, \
          simd_apply<1|2|4>, Iter::fold, simd_iter_pad, fold_unroll<4>, SliceWriter copy) for 6 element types, every length \
-         0..=4v+3 (9v+3 for unroll 4), buffer flush to the end and to the start of a guard-paged region; first_n_mask for every n<=v; \
+         0..=4v+3 (9v+3 for unroll 4), buffer flush to the end and to the start of a guard-paged region; first_n_mask for every n<=v; masked load/store with arbitrary comparison-produced masks for every slice length <= v (masked-off lanes inside the guard page) for 6 element types under every ISA, answered by the Lean movemask/fallback-loop model; the real rten_simd::dispatch (chosen ISA supported and widest); \
          random SliceWriter call sequences; Iter::fold / fold_unroll<2|4> / fold_n / fold_n_unroll<2,2|4> (sum, min, max, min+max; i32 against the Lean fold model, f32 against the scalar fold) and rten-vecmath MinMax/MaxNum/MinNum/Sum/SumSquare/SumAbs/Softmax under every ISA for every length 0..=4v+3 (9v+3 for unroll 4) with all-positive, all-negative and mixed data; f32 primitives and rten-vecmath ops on special-value-biased vectors under every ISA; \
          non-trivial = has a masked tail after at least one full vector / at least one whole vector of data",
     );
